@@ -1682,7 +1682,8 @@ def execute_case(case: Dict[str, Any], path: str) -> Optional[Tuple[Dict[str, An
     if case.get("mid_call_after_op") is not None:
         impl, ins = run_mid_call(path, inv, p, dmg, case["mid_call_after_op"], case["api"], case["verify"])
         if not ins.mutated:
-            return None
+            return (dict(impl, not_reached=True), inv,
+                    f"{case['role']} file {p}: the call makes no storage operation #{case['mid_call_after_op']} on it (nothing to apply {dmg['name']} after)")
         return impl, inv, f"{case['role']} file {p} {dmg['name']} applied after storage operation #{case['mid_call_after_op']} on it, during the call"
     held = None
     if case.get("session"):
@@ -1713,6 +1714,8 @@ def case_fails(case: Dict[str, Any], impl: Dict[str, Any], inv: "Inventory") -> 
         return impl["ok"]               # "ok" = checksums were lost
     if case.get("expect") == "returns-in-time":
         return bool(impl.get("hung"))
+    if impl.get("not_reached"):
+        return False
     if case.get("expect") == "mid-call":
         files = [q for q, r in inv.reachable() if r == case["role"]]
         p = files[min(case.get("index", 0), len(files) - 1)]
